@@ -59,6 +59,16 @@ Example C31_example_first_write :
   trace_of true [OFailCommit 0; OWrite wok] = [SqlBegin; LogAppended 1; SqlCommitFail].
 Proof. vm_compute. split; reflexivity. Qed.
 
+(* a context cancelled before COMMIT (database/sql has rolled back, Commit returns ErrTxDone) or while a statement runs:
+   the transaction is rolled back, nothing is committed, nothing is published, the rest of the request does nothing *)
+Example C31_example_cancel :
+  trace_of true [OCancelCommit 0; OWrite wok] = [SqlBegin; LogAppended 1; SqlRollback] /\
+  trace_of false [OCancelCommit 0; OBulk true false [wok; wok]] = [SqlBegin; LogAppended 1; LogAppended 2; SqlRollback] /\
+  trace_of false [OBulk false true [wok; {| w_dry := false; w_out := WCancel true |}; wok]] =
+    [SqlBegin; LogAppended 1; SqlCommitOk; Publish 1; SqlBegin; LogAppended 2; SqlRollback] /\
+  check (trace_of false [OBulk false true [wok; {| w_dry := false; w_out := WCancel true |}; wok]]) = VOk.
+Proof. vm_compute. repeat split. Qed.
+
 Example C31_example :
   let ops := [OWrite wok; OWrite {| w_dry := true; w_out := WOk |}; OBulk true false [wok; wok];
               OWrite {| w_dry := false; w_out := WFail |}; OFailCommit 1; OBulk false true [wok; {| w_dry := false; w_out := WFail |}; wok; wok]] in
